@@ -127,6 +127,9 @@ func (f *Fam) Gen(r *rand.Rand, i int) string {
 	if r.Intn(14) == 0 {
 		return genAmsg2(r)
 	}
+	if r.Intn(14) == 0 {
+		return genAacct(r)
+	}
 	if r.Intn(10) == 0 {
 		if op := genAstdtx(r); op != "" {
 			return op
@@ -290,6 +293,8 @@ func (f *Fam) Exec(op string) (obs string, fails []common.Failure) {
 		return execAstdtx(w), nil
 	case "amsg2":
 		return execAmsg2(w), nil
+	case "aacct":
+		return execAacct(w), nil
 	case "uv":
 		n, _ := strconv.ParseUint(w[1], 10, 64)
 		bz := amino.MustMarshalBinaryBare(n) // bare uint64 = uvarint
@@ -479,6 +484,9 @@ func (f *Fam) Class(op, obs string) string {
 	}
 	if w[0] == "amsg" || w[0] == "astruct" || w[0] == "amsg2" {
 		return w[0] + "/" + w[1]
+	}
+	if w[0] == "aacct" {
+		return "aacct/" + fmt.Sprint(len(w)-4) + "-coins"
 	}
 	if w[0] == "astdtx" {
 		return "astdtx/" + fmt.Sprint(len(w)-7) + "-coin-fee"
